@@ -57,7 +57,9 @@ Print Assumptions C17_modes_coincide.
    (3) the third CredSSP message is TSRequest{authInfo = SEAL(TSCredentials{TSPasswordCreds(d, u, pw)})} with
    (d, u, pw) = sc_ts_creds: empty under restricted admin or blank creds, else domain, user and -- in password mode --
    the password, encoded as the CHALLENGE's UNICODE flag says (UTF-16LE / the String's bytes), handed to gss_wrapex;
-   (4) the Client Info PDU strict-parses (C04's specification) to the credentials handed to sec::connect.
+   (4) the Client Info PDU strict-parses (C04's specification) to the credentials handed to sec::connect, sent by user id =
+   initiator + 1001 (proved in 1001..65535) on the I/O channel of an INFO message written inside TLS in the sequence model's trace
+   (C17_info_channel: the channel the server announced).
    [strings_ok]: the strings are Rust strings and the PDU fits one PER length determinant. *)
 Theorem C17_where :
   forall x c e cs,
@@ -65,9 +67,20 @@ Theorem C17_where :
     (forall pre k b post, out x c e cs = pre ++ BRaw k b :: post -> pre = [] /\ k = KCr /\ b = cr_frame (sc_offered c) (sc_neg_flag c)) /\
     (forall b, In b (tls_writes KAuthInfo (out x c e cs)) ->
        exists chal, let '(d, u, pw) := sc_ts_creds c (challenge_is_unicode (x_prof x) chal) in sealed_creds x d u pw b) /\
-    (forall b, strings_ok c -> In b (tls_writes KInfo (out x c e cs)) -> let '(d, u, pw) := sc_info_creds c in info_decodes c d u pw b).
+    (forall b, strings_ok c -> In b (tls_writes KInfo (out x c e cs)) -> let '(d, u, pw) := sc_info_creds c in info_decodes (trace_of x c e cs) c d u pw b).
 Proof. exact stmt_where. Qed.
 Print Assumptions C17_where.
+
+(* WHICH channel the Client Info travels on ([info_decodes tr ..] says: the PDU decodes to user id = initiator + 1001 and
+   channel = io (as a 16-bit field carries it) of an INFO message written inside TLS in the sequence model's trace [tr]):
+   when the run returns (user id, server data), that message carries exactly that user id and the I/O channel id of that
+   server data, i.e. the MCSChannelId the server announced in its network data -- no longer the constant 1003. *)
+Theorem C17_info_channel :
+  forall x c e cs uid sd ini io len,
+    result_of x c e cs = Ok (uid, sd) -> In (Connect.TlsWrite (Connect.INFO ini io len)) (trace_of x c e cs) ->
+    ini + 1001 = uid /\ io = Connect.global_id sd.
+Proof. exact stmt_info_channel. Qed.
+Print Assumptions C17_info_channel.
 
 (* ... and NOWHERE ELSE as a field: the remaining messages (connect-initial, erect-domain, attach-user, channel
    joins) are built from [public_cfg], the configuration with the three credential strings erased; there is no fourth
@@ -100,7 +113,7 @@ Theorem C17_restricted :
     raw_writes (out x c e cs) = [cr_frame (sc_offered c) 1] /\
     StrictPdu.strict_parse (cr_frame (sc_offered c) 1) = Some (StrictPdu.PConnectionRequest 1 (sc_offered c)) /\
     (forall b, In b (tls_writes KAuthInfo (out x c e cs)) -> sealed_creds x [] [] [] b) /\
-    (forall b, In b (tls_writes KInfo (out x c e cs)) -> info_decodes c [] [] [] b).
+    (forall b, In b (tls_writes KInfo (out x c e cs)) -> info_decodes (trace_of x c e cs) c [] [] [] b).
 Proof. exact stmt_restricted. Qed.
 Print Assumptions C17_restricted.
 
@@ -112,7 +125,7 @@ Theorem C17_blank :
     raw_writes (out x c e cs) = [cr_frame (sc_offered c) 0] /\
     StrictPdu.strict_parse (cr_frame (sc_offered c) 0) = Some (StrictPdu.PConnectionRequest 0 (sc_offered c)) /\
     (forall b, In b (tls_writes KAuthInfo (out x c e cs)) -> sealed_creds x [] [] [] b) /\
-    (forall b, strings_ok c -> In b (tls_writes KInfo (out x c e cs)) -> info_decodes c (sc_domain c) (sc_user c) (sc_password c) b).
+    (forall b, strings_ok c -> In b (tls_writes KInfo (out x c e cs)) -> info_decodes (trace_of x c e cs) c (sc_domain c) (sc_user c) (sc_password c) b).
 Proof. exact stmt_blank. Qed.
 Print Assumptions C17_blank.
 
@@ -123,7 +136,7 @@ Theorem C17_default_mode :
     raw_writes (out x c e cs) = [cr_frame (sc_offered c) 0] /\
     (forall b, In b (tls_writes KAuthInfo (out x c e cs)) ->
        exists u, sealed_creds x (encode_name u (sc_domain c)) (encode_name u (sc_user c)) (encode_name u (sc_password c)) b) /\
-    (forall b, strings_ok c -> In b (tls_writes KInfo (out x c e cs)) -> info_decodes c (sc_domain c) (sc_user c) (sc_password c) b).
+    (forall b, strings_ok c -> In b (tls_writes KInfo (out x c e cs)) -> info_decodes (trace_of x c e cs) c (sc_domain c) (sc_user c) (sc_password c) b).
 Proof. exact stmt_default_mode. Qed.
 Print Assumptions C17_default_mode.
 
@@ -136,7 +149,7 @@ Theorem C17_hash_mode :
     response_key x c = ntowfv2_hash (x_hmac x) (x_upper x) h (sc_user c) (sc_domain c) /\
     (forall b, In b (tls_writes KAuthInfo (out x c e cs)) ->
        exists u, sealed_creds x (encode_name u (sc_domain c)) (encode_name u (sc_user c)) [] b) /\
-    (forall b, strings_ok c -> In b (tls_writes KInfo (out x c e cs)) -> info_decodes c (sc_domain c) (sc_user c) (sc_password c) b).
+    (forall b, strings_ok c -> In b (tls_writes KInfo (out x c e cs)) -> info_decodes (trace_of x c e cs) c (sc_domain c) (sc_user c) (sc_password c) b).
 Proof. exact stmt_hash_mode. Qed.
 Print Assumptions C17_hash_mode.
 
@@ -163,7 +176,7 @@ Print Assumptions C17_rendering_consistent.
    harness.  (1) default mode + auto-logon, domain U+57DF, user "Usér", password with U+1F600: the model's output IS the
    byte transcript of the real implementation (one raw frame with flag 0, handshake, NEGOTIATE, AUTHENTICATE, authInfo,
    MCS PDUs, Client Info), the hypotheses hold, and the Client Info decodes to the three strings; (2) restricted admin
-   with an NT hash: flag 1, and the Client Info decodes to three empty strings. *)
+   with an NT hash against a server announcing I/O channel 1007: flag 1, the Client Info decodes to three empty strings and travels on channel 1007. *)
 Theorem C17_nonvacuous :
   (out (ex_x ex1_upper Debug ex1_post) ex1_cfg ex1_env (ex1_cc :: ex1_post) = ex1_events /\
    strings_ok ex1_cfg /\
@@ -172,13 +185,16 @@ Theorem C17_nonvacuous :
    List.length (tls_writes KNego ex1_events) = 1%nat /\ List.length (tls_writes KAuth ex1_events) = 1%nat /\
    List.length (tls_writes KAuthInfo ex1_events) = 1%nat /\
    tls_writes KInfo ex1_events = [ex1_info_frame] /\
-   info_decodes ex1_cfg [22495] [85; 115; 233; 114] [112; 228; 128512; 119; 48; 114; 100] ex1_info_frame) /\
+   info_decodes (trace_of (ex_x ex1_upper Debug ex1_post) ex1_cfg ex1_env (ex1_cc :: ex1_post)) ex1_cfg
+               [22495] [85; 115; 233; 114] [112; 228; 128512; 119; 48; 114; 100] ex1_info_frame) /\
   (out (ex_x ex2_upper Release ex2_post) ex2_cfg ex2_env (ex2_cc :: ex2_post) = ex2_events /\
    strings_ok ex2_cfg /\
    sc_restricted ex2_cfg = true /\ (exists h, sc_hash ex2_cfg = Some h) /\
    raw_writes ex2_events = [cr_frame 3 1] /\
    List.length (tls_writes KAuthInfo ex2_events) = 1%nat /\
    tls_writes KInfo ex2_events = [ex2_info_frame] /\
-   info_decodes ex2_cfg [] [] [] ex2_info_frame).
+   info_decodes (trace_of (ex_x ex2_upper Release ex2_post) ex2_cfg ex2_env (ex2_cc :: ex2_post)) ex2_cfg [] [] [] ex2_info_frame /\
+   (exists sd, result_of (ex_x ex2_upper Release ex2_post) ex2_cfg ex2_env (ex2_cc :: ex2_post) = Ok (1004, sd) /\ Connect.global_id sd = 1007) /\
+   (exists i, StrictPdu.strict_parse ex2_info_frame = Some (StrictPdu.PClientInfo 1004 1007 i))).
 Proof. exact ex_nonvacuous. Qed.
 Print Assumptions C17_nonvacuous.
